@@ -76,6 +76,7 @@ class Ctx:
         self.timeout = int(os.environ.get('PHQV_TIMEOUT_MS', '10000' if core.tier() == 'quick' else '120000'))
         self.nvalid = 3 if core.tier() == 'quick' else 8
         self.summaries = summaries.base()
+        self.init_tables = None
 
     def result(self, name):
         """symbolic execution result of wrapper `name` (cached); None if it did not compile"""
@@ -85,7 +86,7 @@ class Ctx:
             self.results[name] = None
             return None
         w = self.byname[name]
-        r = H.execute_wrapper(self.unit.mod, w, self.summaries)
+        r = H.execute_wrapper(self.unit.mod, w, self.summaries, init_tables=self.init_tables)
         self.results[name] = r
         self.out['paths'] += r.npaths
         for f in r.functions:
